@@ -185,6 +185,25 @@ def run(ctx):
                       "check, so surplus text after it is executed instead of refused" % enders)
     ctx.finish_rule()
 
+    ctx.rule("C15.R6", "the eval command changes the machine only by executing the instruction", floor=1)
+    from .. import dbg as _dbg
+    from ..effects import Effects as _Eff
+    disp_, sw_bb_, arms_, sp_, selfp_ = _dbg.dispatcher(ctx)
+    ctx.need("Eval" in arms_, "Eval arm of the dispatcher")
+    ws_ = _Eff(prog).site_writes(disp_, sp_, _dbg.arm_region(disp_, arms_["Eval"]))
+    ctx.instance(1)
+    evn = "lace::debugger::eval::eval"
+    other = [w for w in ws_ if w[1] != "call:" + evn]
+    ok = bool(ws_) and not other
+    ctx.oblig(ok, {"writes of the Eval arm": sorted({w[1] for w in ws_})}, "only through eval()")
+    for b, kind, path, span in other:
+        ctx.violation("eval-arm-write|%s" % (".".join(path) or "*"), sp_file_line(span),
+                      "the Eval arm writes `%s` itself (%s), besides executing the instruction: the machine after `eval` is not what executing that instruction here and now yields"
+                      % (".".join(path) or "*", kind))
+    if not ws_:
+        ctx.violation("eval-arm-no-eval", disp_.file_line(), "the Eval arm does not execute through eval()")
+    ctx.finish_rule()
+
     ctx.rule("C15.R5", "nothing on the eval path ends the session (closed ledger of exit sites)", floor=2)
     evw = ctx.fn("lace::debugger::eval::eval")
     reach = ctx.cg.reachable([evw.name])
